@@ -386,7 +386,8 @@ Proof.
     + destruct (l_et (st w)); [|inversion He; subst; exact H2].
       destruct (sent + n <? l_chunk (st w2)).
       * eapply Hw; eauto.
-      * eapply Inv_trigger; [exact H2| |exact He]. right; left; eauto.
+      * eapply Inv_trigger; [| |exact He]; [|right; left; eauto].
+        apply good_ghost; [apply good_R0|discriminate|discriminate|discriminate|exact H2].
   - destruct (is_eagain e); [inversion He; subst; exact (Rel_P_drop _ _ _ _ _ H1)|].
     eapply Hc; [apply Inv_fail_open; exact H1|right; auto|exact He].
   - inversion He; subst. apply Any_Inv; exact H1.
